@@ -453,4 +453,297 @@ theorem oneWindow_sim (cfg : DevCfg) (join second : Bool) (rf : RfConfig) (r : D
           obtain ⟨h1', h2'⟩ := hp
           exact ⟨h1', (hrel.trans_silent (afterCall_rel r1 _ rfl)).trans h2'⟩
 
+/-! ## the whole receive procedure -/
+
+theorem winC_errBefore (cc : Bool) (m : MacState) (cs : List (RxView × Int)) (f : Option (RxView × Int)) (mp : Nat)
+    (ea ea' : Bool) : winC cc m cs f mp true ea = winC cc m cs f mp true ea' := by
+  unfold winC
+  simp
+
+theorem winC_some (cc : Bool) (m : MacState) (cs : List (RxView × Int)) (f : Option (RxView × Int)) (mp : Nat)
+    (eb ea : Bool) (o : Option RxOut) (h : List RxOut) (m' : MacState)
+    (hw : winC cc m cs f mp eb ea = .ok (some o, h, m')) : eb = false ∧ ea = false := by
+  unfold winC at hw
+  obtain ⟨⟨os, fin, m1⟩, _, hw⟩ := Except.bind_eq_ok hw
+  simp only at hw
+  split at hw
+  · cases hw
+  · rename_i hc
+    obtain ⟨⟨o1, m2⟩, _, hw⟩ := Except.bind_eq_ok hw
+    obtain ⟨_, _, hw⟩ := Except.bind_eq_ok hw
+    simp only at hw
+    split at hw
+    · cases hw
+    · rename_i ha
+      simp only [Bool.or_eq_true, not_or] at hc
+      exact ⟨by simpa using hc.2, by simpa using ha⟩
+
+theorem faultOf_ne_tx (w1 w2 : WinAbs) : faultOf w1 w2 ≠ some .tx := by
+  unfold faultOf
+  repeat' split
+  all_goals simp
+
+theorem winC_fault1 (cc : Bool) (m : MacState) (mp : Nat) (w1 w2 : WinAbs) :
+    winC cc m w1.cs w1.f mp (faultOf w1 w2 == some .before1) (faultOf w1 w2 == some .close1) =
+      winC cc m w1.cs w1.f mp w1.errBefore w1.errAfter := by
+  cases hb : w1.errBefore with
+  | true =>
+    have : faultOf w1 w2 = some .before1 := by simp [faultOf, hb]
+    rw [this]
+    exact winC_errBefore _ _ _ _ _ _ _
+  | false =>
+    cases ha : w1.errAfter with
+    | true =>
+      have : faultOf w1 w2 = some .close1 := by simp [faultOf, hb, ha]
+      rw [this]; rfl
+    | false =>
+      have h1 : (faultOf w1 w2 == some .before1) = false := by
+        cases hb2 : w2.errBefore <;> cases ha2 : w2.errAfter <;> simp [faultOf, hb, ha, hb2, ha2]
+      have h2 : (faultOf w1 w2 == some .close1) = false := by
+        cases hb2 : w2.errBefore <;> cases ha2 : w2.errAfter <;> simp [faultOf, hb, ha, hb2, ha2]
+      rw [h1, h2]
+
+theorem winC_fault2 (cc : Bool) (m : MacState) (mp : Nat) (w1 w2 : WinAbs) (hb1 : w1.errBefore = false)
+    (ha1 : w1.errAfter = false) :
+    winC cc m w2.cs w2.f mp (faultOf w1 w2 == some .before2) (faultOf w1 w2 == some .close2) =
+      winC cc m w2.cs w2.f mp w2.errBefore w2.errAfter := by
+  cases hb : w2.errBefore with
+  | true =>
+    have : faultOf w1 w2 = some .before2 := by simp [faultOf, hb, hb1, ha1]
+    rw [this]
+    exact winC_errBefore _ _ _ _ _ _ _
+  | false =>
+    cases ha : w2.errAfter with
+    | true =>
+      have : faultOf w1 w2 = some .close2 := by simp [faultOf, hb, ha, hb1, ha1]
+      rw [this]; rfl
+    | false =>
+      have : faultOf w1 w2 = none := by simp [faultOf, hb, ha, hb1, ha1]
+      rw [this]; rfl
+
+/-- how `rx_downlink` ends, against the MAC-level procedure: a response of a window, the completion
+(`rx2_complete`, which the front-end performs itself), or an error -/
+def ProcPost (r : DevRun) (st : Step Response) (res : ProcEnd × List RxOut × MacState) : Prop :=
+  match st with
+  | .cont resp r' =>
+    (∃ o, res.1 = .resp o ∧ resp = o.resp ∧ RunRel r r' res.2.1 res.2.2) ∨
+    (res.1 = .complete ∧ resp = (macRx2Complete res.2.2).1 ∧ RunRel r r' res.2.1 (macRx2Complete res.2.2).2)
+  | .radioErr r' => res.1 = .cut ∧ RunRel r r' res.2.1 res.2.2
+  | .macErr r' => res.1 = .cut ∧ RunRel r r' res.2.1 res.2.2
+
+theorem rxDownlink_sim (cfg : DevCfg) (join : Bool) (tx : TxOut) (r : DevRun) :
+    Sim (rxDownlink cfg join tx r)
+      (cycleC cfg.classC r.m
+        (faultOf (parseWin cfg.classC r.script).1 (parseWin cfg.classC (parseWin cfg.classC r.script).2).1)
+        (parseWin cfg.classC r.script).1.cs (parseWin cfg.classC r.script).1.f
+        (parseWin cfg.classC (parseWin cfg.classC r.script).2).1.cs (parseWin cfg.classC (parseWin cfg.classC r.script).2).1.f
+        tx.rx1.maxPayload.toNat tx.rx2.maxPayload.toNat)
+      (ProcPost r) := by
+  unfold rxDownlink cycleC
+  simp only [faultOf_ne_tx, if_false]
+  rw [winC_fault1]
+  refine Sim.bind_eq (oneWindow_sim cfg join false tx.rx1 r) ?_
+  intro st res _ hres hp
+  obtain ⟨r1, h1, m1⟩ := res
+  cases st with
+  | radioErr r' =>
+    obtain ⟨e, hrel⟩ := hp
+    simp only at e hrel
+    subst e
+    exact Sim.pure ⟨rfl, hrel⟩
+  | macErr r' =>
+    obtain ⟨e, hrel⟩ := hp
+    simp only at e hrel
+    subst e
+    exact Sim.pure ⟨rfl, hrel⟩
+  | cont o r' =>
+    obtain ⟨e, hrel, hscr⟩ := hp
+    simp only at e hrel
+    subst e
+    obtain ⟨hb1, ha1⟩ := winC_some _ _ _ _ _ _ _ _ _ _ hres
+    cases o with
+    | some o => exact Sim.pure (Or.inl ⟨o, rfl, rfl, hrel⟩)
+    | none =>
+      simp only
+      rw [winC_fault2 _ _ _ _ _ hb1 ha1]
+      have hm : r'.m = m1 := hrel.m
+      rw [← hm, ← hscr]
+      refine Sim.bind (oneWindow_sim cfg join true tx.rx2 r') ?_
+      intro st2 res2 hp2
+      obtain ⟨r2, h2, m2⟩ := res2
+      cases st2 with
+      | radioErr r'' =>
+        obtain ⟨e, hrel2⟩ := hp2
+        simp only at e hrel2
+        subst e
+        exact Sim.pure ⟨rfl, hrel.trans hrel2⟩
+      | macErr r'' =>
+        obtain ⟨e, hrel2⟩ := hp2
+        simp only at e hrel2
+        subst e
+        exact Sim.pure ⟨rfl, hrel.trans hrel2⟩
+      | cont o2 r'' =>
+        obtain ⟨e, hrel2, _⟩ := hp2
+        simp only at e hrel2
+        subst e
+        cases o2 with
+        | some o => exact Sim.pure (Or.inl ⟨o, rfl, rfl, hrel.trans hrel2⟩)
+        | none =>
+          refine Sim.pure (Or.inr ⟨rfl, ?_, ?_⟩)
+          · simp only; rw [hrel2.m]
+          · have := hrel.trans hrel2
+            refine ⟨?_, this.dls, this.cap, this.calls⟩
+            simp only; rw [hrel2.m]
+
+/-! ## `send` and `join` -/
+
+/-- the response as the history reports it: a radio (or `NotJoined`) error is `none` -/
+def DevResult.resp? : DevResult → Option Response
+  | .ok r => some r
+  | _ => none
+
+/-- the front-end's answer against the event's output -/
+def RespRel (res : DevResult) : Out → Prop
+  | .notJoined => res = .errMac
+  | .up _ resp _ => res.resp? = resp
+  | .join _ resp => res.resp? = resp
+  | _ => False
+
+/-- the calls logged by the operation against the event's output: exactly one transmission, of the
+frame and with the radio configuration of the event's output (none if the MAC refused) -/
+def TxRel (r r' : DevRun) : Out → Prop
+  | .notJoined => r'.calls = r.calls
+  | .up o _ _ => ∃ added, r'.calls = added ++ Call.tx o.tx (frameLen o.frame) :: r.calls ∧ ∀ c ∈ added, c.isTx = false
+  | .join o _ => ∃ added, r'.calls = added ++ Call.tx o.tx 23 :: r.calls ∧ ∀ c ∈ added, c.isTx = false
+  | _ => False
+
+/-- **what the refinement relates**: MAC state, generator state, the downlink queue (every output
+the event lists was offered to it, in order), the response, the transmission -/
+structure OpRel {σ} (r : DevRun) (a : DevResult × DevRun × σ) (b : (MacState × σ) × OutC) : Prop where
+  m : a.2.1.m = b.1.1
+  rng : a.2.2 = b.1.2
+  dls : a.2.1.downlinks = pushDls r.dlCap r.downlinks b.2.heard
+  cap : a.2.1.dlCap = r.dlCap
+  resp : RespRel a.1 b.2.out
+  tx : TxRel r a.2.1 b.2.out
+
+theorem respRel_fault (m : MacState) (alt : DevResult) (halt : alt.resp? = none) (o : SendOut) :
+    RespRel (if faultExpired m then .ok .sessionExpired else alt)
+      (.up o (if faultExpired m then some .sessionExpired else none) none) := by
+  by_cases hx : faultExpired m = true
+  · simp [RespRel, hx, DevResult.resp?]
+  · simp only [RespRel, hx, Bool.false_eq_true, if_false]; exact halt
+
+theorem asyncSend_sim {σ} (g : Rng σ) (cfg : DevCfg) (r : DevRun) (data : List Nat) (port : Nat) (conf : Bool) (rs : σ) :
+    Sim (asyncSend g cfg r data port conf rs) (stepC g (r.m, rs) (abstractSendC cfg r.script data port conf)) (OpRel r) := by
+  unfold asyncSend abstractSendC
+  by_cases he : (nextItem r.script).1.isErr = true
+  · simp only [he, if_true, stepC]
+    refine Sim.same _ (fun oms _ => ?_)
+    obtain ⟨o, m, rs1⟩ := oms
+    cases o with
+    | none => exact Sim.pure ⟨rfl, rfl, by simp [pushDls], rfl, rfl, rfl⟩
+    | some out =>
+      simp only [simpleCall_eq, he, if_true, cycleC, pure_bind]
+      exact Sim.pure ⟨rfl, rfl, by simp [pushDls, afterCall], rfl, respRel_fault _ _ rfl _, ⟨[], rfl, by simp⟩⟩
+  · simp only [he, Bool.false_eq_true, if_false, stepC]
+    refine Sim.same _ (fun oms _ => ?_)
+    obtain ⟨o, m, rs1⟩ := oms
+    cases o with
+    | none => exact Sim.pure ⟨rfl, rfl, by simp [pushDls], rfl, rfl, rfl⟩
+    | some out =>
+      simp only [simpleCall_eq, he, Bool.false_eq_true, if_false]
+      refine Sim.bind (rxDownlink_sim cfg false out.tx ((afterCall { r with m := m } (.tx out.tx (frameLen out.frame))).log .reset)) ?_
+      intro st res hp
+      obtain ⟨fin, heard, m2⟩ := res
+      have hbase : ∀ (r' : DevRun) (m' : MacState),
+          RunRel ((afterCall { r with m := m } (.tx out.tx (frameLen out.frame))).log .reset) r' heard m' →
+          r'.m = m' ∧ r'.downlinks = pushDls r.dlCap r.downlinks heard ∧ r'.dlCap = r.dlCap ∧
+            ∃ added, r'.calls = added ++ Call.tx out.tx (frameLen out.frame) :: r.calls ∧ ∀ c ∈ added, c.isTx = false := by
+        intro r' m' hrel
+        refine ⟨hrel.m, hrel.dls, hrel.cap, ?_⟩
+        obtain ⟨added, hc, hn⟩ := hrel.calls
+        refine ⟨added ++ [.reset], by rw [hc]; simp [afterCall, DevRun.log], ?_⟩
+        intro c hcm
+        rcases List.mem_append.mp hcm with h | h
+        · exact hn c h
+        · simp at h; subst h; rfl
+      cases st with
+      | cont resp r' =>
+        rcases hp with ⟨o, e, hresp, hrel⟩ | ⟨e, hresp, hrel⟩
+        · simp only at e hresp hrel
+          subst e
+          obtain ⟨h1, h2, h3, h4⟩ := hbase r' m2 hrel
+          exact Sim.pure ⟨h1, rfl, h2, h3, by simp [RespRel, DevResult.resp?, hresp], h4⟩
+        · simp only at e hresp hrel
+          subst e
+          obtain ⟨h1, h2, h3, h4⟩ := hbase r' _ hrel
+          exact Sim.pure ⟨h1, rfl, h2, h3, by simp [RespRel, DevResult.resp?, hresp], h4⟩
+      | radioErr r' =>
+        obtain ⟨e, hrel⟩ := hp
+        simp only at e hrel
+        subst e
+        obtain ⟨h1, h2, h3, h4⟩ := hbase r' m2 hrel
+        subst h1
+        exact Sim.pure ⟨rfl, rfl, h2, h3, respRel_fault _ _ rfl _, h4⟩
+      | macErr r' =>
+        obtain ⟨e, hrel⟩ := hp
+        simp only at e hrel
+        subst e
+        obtain ⟨h1, h2, h3, h4⟩ := hbase r' m2 hrel
+        subst h1
+        exact Sim.pure ⟨rfl, rfl, h2, h3, respRel_fault _ _ rfl _, h4⟩
+
+theorem asyncJoin_sim {σ} (g : Rng σ) (cfg : DevCfg) (r : DevRun) (rs : σ) :
+    Sim (asyncJoin g cfg r rs) (stepC g (r.m, rs) (abstractJoinC cfg r.script)) (OpRel r) := by
+  unfold asyncJoin abstractJoinC
+  by_cases he : (nextItem r.script).1.isErr = true
+  · simp only [he, if_true, stepC]
+    refine Sim.same _ (fun oms _ => ?_)
+    obtain ⟨out, m, rs1⟩ := oms
+    simp only [simpleCall_eq, he, if_true, cycleC, pure_bind]
+    exact Sim.pure ⟨rfl, rfl, by simp [pushDls, afterCall], rfl, rfl, ⟨[], rfl, by simp⟩⟩
+  · simp only [he, Bool.false_eq_true, if_false, stepC]
+    refine Sim.same _ (fun oms _ => ?_)
+    obtain ⟨out, m, rs1⟩ := oms
+    simp only [simpleCall_eq, he, Bool.false_eq_true, if_false]
+    refine Sim.bind (rxDownlink_sim cfg true out.tx ((afterCall { r with m := m } (.tx out.tx 23)).log .reset)) ?_
+    intro st res hp
+    obtain ⟨fin, heard, m2⟩ := res
+    have hbase : ∀ (r' : DevRun) (m' : MacState),
+        RunRel ((afterCall { r with m := m } (.tx out.tx 23)).log .reset) r' heard m' →
+        r'.m = m' ∧ r'.downlinks = pushDls r.dlCap r.downlinks heard ∧ r'.dlCap = r.dlCap ∧
+          ∃ added, r'.calls = added ++ Call.tx out.tx 23 :: r.calls ∧ ∀ c ∈ added, c.isTx = false := by
+      intro r' m' hrel
+      refine ⟨hrel.m, hrel.dls, hrel.cap, ?_⟩
+      obtain ⟨added, hc, hn⟩ := hrel.calls
+      refine ⟨added ++ [.reset], by rw [hc]; simp [afterCall, DevRun.log], ?_⟩
+      intro c hcm
+      rcases List.mem_append.mp hcm with h | h
+      · exact hn c h
+      · simp at h; subst h; rfl
+    cases st with
+    | cont resp r' =>
+      rcases hp with ⟨o, e, hresp, hrel⟩ | ⟨e, hresp, hrel⟩
+      · simp only at e hresp hrel
+        subst e
+        obtain ⟨h1, h2, h3, h4⟩ := hbase r' m2 hrel
+        exact Sim.pure ⟨h1, rfl, h2, h3, by simp [RespRel, DevResult.resp?, hresp], h4⟩
+      · simp only at e hresp hrel
+        subst e
+        obtain ⟨h1, h2, h3, h4⟩ := hbase r' _ hrel
+        exact Sim.pure ⟨h1, rfl, h2, h3, by simp [RespRel, DevResult.resp?, hresp], h4⟩
+    | radioErr r' =>
+      obtain ⟨e, hrel⟩ := hp
+      simp only at e hrel
+      subst e
+      obtain ⟨h1, h2, h3, h4⟩ := hbase r' m2 hrel
+      exact Sim.pure ⟨h1, rfl, h2, h3, rfl, h4⟩
+    | macErr r' =>
+      obtain ⟨e, hrel⟩ := hp
+      simp only at e hrel
+      subst e
+      obtain ⟨h1, h2, h3, h4⟩ := hbase r' m2 hrel
+      exact Sim.pure ⟨h1, rfl, h2, h3, rfl, h4⟩
+
 end Model
